@@ -45,6 +45,11 @@ func init() {
 		register(&core.Scenario{Name: "c01-f0-" + k.kind, Property: "C01", Weight: k.w, Bubble: k.bubble, LeakIsViolation: false,
 			Run: func(env *core.Env) { c01f0(env, k.kind) }})
 	}
+	// interleavings with other pushes / writes / deletes: whatever a read returns with a
+	// clean EOF hashes to the digest asked for (the scenario bodies are shared with C08)
+	register(&core.Scenario{Name: "c01-concurrent-mem", Property: "C01", Weight: 2, Bubble: true, Run: func(env *core.Env) { c08(env, "mem", false) }})
+	register(&core.Scenario{Name: "c01-concurrent-http", Property: "C01", Weight: 1, Bubble: true, Run: func(env *core.Env) { c08(env, "http", false) }})
+	register(&core.Scenario{Name: "c01-commit-vs-write", Property: "C01", Weight: 1, Bubble: true, Run: c08commitWrite})
 	register(&core.Scenario{Name: "c01-f1-corrupt", Property: "C01", Weight: 5, Run: c01f1})
 	register(&core.Scenario{Name: "c01-singlepost", Property: "C01", Weight: 2, Run: c01singlePost})
 }
